@@ -7,7 +7,7 @@ SHIMS = [
     "S5 Matcher.__init__ (Lark), Scanner tables, CsvPath.__init__ run natively: csvpath text is concrete",
     "S6 DataFileReader('SYM') is a stub reader yielding the harness records (csv module = environment)",
     "S7 CrossHair's pure-python datetime model unregistered",
-    "S8 floats made from ints are exact reals (sound for |x| <= 2**53)",
+    "S8 floats made from ints are exact reals and CrossHair's UNKNOWN cap for real-modelled floats is lifted (sound for |x| <= 2**53 under + - * % and comparison)",
     "S9 json.dump(s) realise their arguments (C boundary)",
     "S10 loggers of harness-built CsvPath/CsvPaths objects disabled",
     "S11 LarkPrintParser construction and Lark parse of a concrete print string run natively",
